@@ -217,3 +217,35 @@ __CPROVER_ensures(!g_has_X ==> (g_exc == 0 && g_replaced[0] == 1 && g_replaced[1
     harness='  SFTi* s; Timezone z; SFT_init(s, z);',
     dropped=['the pattern string (presence of %X as a boolean); _replace_all and _populate_initial_parts / _split_timestamp_format_once (string and std::map code: NOT covered)'], trusted=[], min_obligations=10)
 UNITS.append(sft_init)
+
+# ------------------------------------------------------------------------------------------ _next_noon_or_midnight_timestamp
+NM_PRELUDE = r'''
+#include <time.h>
+/* TRUSTED libc model for UTC (exact: POSIX days have 86400 s): gmtime_r breaks t down relative to the start of its UTC day,
+   timegm re-assembles linearly.  g_day_base = the instant of 00:00:00 UTC of the day containing t. */
+time_t g_day_base;
+uint32_t BD_second_of_day(time_t t) __CPROVER_requires(t >= 0) __CPROVER_assigns(g_day_base)
+__CPROVER_ensures(g_day_base >= 0 && g_day_base <= t && t - g_day_base < 86400 && RET == (uint32_t)(t - g_day_base));
+static inline void LIBC_breakdown(time_t const* t, struct tm* d) { uint32_t sod = BD_second_of_day(*t); d->tm_hour = (int)(sod / 3600u); d->tm_min = (int)((sod % 3600u) / 60u); d->tm_sec = (int)(sod % 60u); }
+static inline time_t LIBC_assemble(struct tm* d) { return g_day_base + (time_t)d->tm_hour * 3600 + (time_t)d->tm_min * 60 + (time_t)d->tm_sec; }
+'''
+noon_midnight = dict(
+    name='SFT.noon_midnight', primary='C13', props={'C13'}, kind='L',
+    desc='StringFromTime::_next_noon_or_midnight_timestamp: the next 12:00:00 or 00:00:00 UTC strictly after the instant (the recalculation point of GMT caches, where %p and the 12-hour fields change)',
+    structs=[], prelude=NM_PRELUDE, enforce='SFT__next_noon_or_midnight_timestamp', replace=['BD_second_of_day'],
+    funcs=[dict(src=dict(header=H, cls='StringFromTime', name='_next_noon_or_midnight_timestamp'), src_params=['timestamp'], cfun='SFT__next_noon_or_midnight_timestamp',
+                sig='time_t SFT__next_noon_or_midnight_timestamp(time_t timestamp)', member_fields=[],
+                pre_rules=[(r'\btm\s+time_info\s*;', 'struct tm time_info;'),
+                           (r'(?:detail::)?gmtime_rs\(&timestamp,\s*&time_info\)', 'LIBC_breakdown(&timestamp, &time_info)'),
+                           (r'std::chrono::system_clock::time_point\s+const\s+next_midnight\s*=\s*std::chrono::system_clock::from_time_t\((?:detail::)?timegm\(&time_info\)\)\s*;', 'time_t const next_midnight = LIBC_assemble(&time_info);'),
+                           (r'std::chrono::duration_cast<std::chrono::seconds>\(next_midnight\.time_since_epoch\(\)\)\.count\(\)', 'next_midnight')],
+                contract=r'''
+__CPROVER_requires(timestamp >= 0 && timestamp < (((time_t)1) << 40))
+__CPROVER_assigns(g_day_base)
+__CPROVER_ensures(RET == g_day_base + ((timestamp - g_day_base) < 43200 ? 43200 : 86400)) /*@ C13 "GMT caches are recalculated at the next noon or midnight UTC: the first instant at which the date, %p or the 12-hour value can change" */
+__CPROVER_ensures(RET > timestamp && RET - timestamp <= 43200) /*@ C13 "the recalculation point is strictly after the instant and at most half a day later (the contract SFT.format_timestamp relies on)" */
+''')],
+    harness='  time_t t; SFT__next_noon_or_midnight_timestamp(t);',
+    dropped=['std::chrono::system_clock::from_time_t / duration_cast<seconds> round trip as identity on seconds', 'struct tm date fields (pass through libc unchanged)'],
+    trusted=['libc gmtime_r / timegm by the linear UTC model LIBC_breakdown / LIBC_assemble (exact for POSIX time)'], min_obligations=5)
+UNITS.append(noon_midnight)
